@@ -390,6 +390,10 @@ func (e *Engine) returnFrom(st *State, res Value) {
 	if fr.ret == retInit {
 		e.snapshotInit(st, fr)
 	}
+	if fr.ret == retMerge {
+		e.mergeReturn(st, fr, res)
+		return
+	}
 	e.finishCall(st, fr.ret, res)
 }
 
